@@ -20,7 +20,12 @@ ASBUILT = {
   in `_unlink_inds`); the combine oracle checks per axis that every outer label of the added network is kept.
   Fixed: stale inner/outer classification after popping a tensor with a repeated label. Known finding: histories that
   *create or remove* a repetition of a label on one tensor through `modify`/`reindex` (marker
-  `[repeated-label-history]`, §5).""",
+  `[repeated-label-history]`, §5). After the second seeded round (sub-agent, 122 quick / 564 thorough obligations): every
+  non-virtual way of duplicating a network or a tensor followed by mutations on either side (`s_dup`, `s_tensor_dup`), emptying
+  and re-use (`remove_all_tensors`, `delete`, then adds / in-place combines, with a virtual view alive), `make_norm` over every
+  `mangle_append` / `layer_tags` / `return_all` value, in-place combines, and `oset_ops` — every public operation of the ordered
+  set the maps are built from, against an ordered-list model with independence of results from operands. Fixed: `copy.copy(oset)`
+  sharing storage (§5).""",
 "C03": """* **As built** (`props/c03.py`, written by a sub-agent and reviewed; 87 quick / 124 thorough, 11 s / 75 s):
   reflection finds 147 own `(f, f_)` pairs on 19 classes plus 5 inherited pairs whose two spellings resolve to
   different functions, and 31 binary dunders. 107 pairs run on symbolic entries (stub-based ones with the LAPACK stubs
@@ -30,7 +35,11 @@ ASBUILT = {
   after canonicalising random bond names; (iii) every stored-axis permutation of the tensors involved gives the same
   labelled result (dense value for gauge-dependent results); (iv) reversed insertion order. Fixed: 4 defects
   (`expand_bond_dimension(inplace=False)`, `MPS.flip_`, `PEPS3D.reindex_sites_`, `IsoTensor.fuse_`); known finding:
-  `isometrize` column order (§5).""",
+  `isometrize` column order (§5). After the second seeded round: the *derived label views* (`sites`, `site_inds`, `upper_inds`,
+  `lower_inds`, … read through the public, cached properties) are part of what is compared between `f(x)` and `f_(copy x)`, the
+  copy's caches having been read before the in-place call; operator `align` cases that change the naming scheme; `isel` with
+  mixed selector kinds; an exception raised by the library on arguments from the documented domain is a goal failure. Fixed:
+  `measure_(remove=True)` keeping stale cached site properties (§5).""",
 "C05": """* **As built** (`props/c05.py`, 123 quick / 411 thorough, 8 s / 2 min): `split_exact` (10 methods × every absorb
   alias × tall / wide / dim-1 bipartitions; product == input and promised isometry, by certificates), `truncation_rule`
   (both `_trim_and_renorm_svd_result` variants on n ≤ 4 (5) *symbolic ordered* singular values, symbolic cutoff, all 6
@@ -101,7 +110,13 @@ ASBUILT = {
   eigensolver, dense **and matrix-free**, satisfies the bilinear identity `z†(A x) = ⟨k[z]|H k⟩` for complex
   non-symmetric H) and `solve_driver` (the real `solve()` with the sweep replaced by symbolic energies: schedules of
   bond caps / cutoffs / directions across sweeps and across two calls, `energy` is the last sweep's, convergence flag
-  and early stop). Fixed: 2 defects (§5). Convergence to the ground state is outside (iterative).""",
+  and early stop). Fixed: 2 defects (§5). Convergence to the ground state is outside (iterative). After the second seeded
+  round (sub-agent, 102 quick obligations ≈ 60 s): `truncated_update_energy` (two-site updates whose split really truncates),
+  `solve_resume_history` (three consecutive `solve()` calls on one object, symbolic sweep energies), `solve_presweep_state`,
+  `sweep_chain`, `canonize_mirrors_bra`, `local_update_mirrors_bra` (bra == conj(ket) tensor by tensor for complex states). Fixed:
+  DMRG2 with open boundaries not renormalising after a truncating split — the reported energy could lie *below* the exact ground
+  energy (§5); since that fix the DMRG2 "state normalised" goal is numeric-only (explicit division by a tensor norm), the energy
+  goals stay certified.""",
 "C11": """* **As built** (`props/c11.py`, 67 quick, 7–15 s): `local_ham_terms` (LocalHam1D term assembly, open/periodic,
   odd/even L = 2–5), `time_bookkeeping` (symbolic `t0, dt, T` with 0 < dt, ≤ 4 steps: the sequence of applied step
   sizes sums exactly to `T − t0`, final partial step, order 1/2/4 schedules — SX forks on the float comparisons of the
@@ -162,7 +177,10 @@ ASBUILT = {
   initial messages, damping at the fixed point, `damping_argument_order`; gauging / compression through eigh/svd
   contracts. Symbolic runs use the documented callable `distance=`, `smudge_factor=0`, dict messages; the library
   defaults run numerically. Fixed: `normalize_message_pair` sign, `HD1BP.normalize_messages` nan, L1BP/L2BP damping
-  argument order (§5).""",
+  argument order (§5). After the second seeded round (sub-agent, 183 quick / ≈ 460 thorough): `d2bp_multi_dangling` (D2BP / L2BP
+  on tensors with up to three dangling labels: messages, marginals of every dangling label, partial traces, value) and `run_history`
+  (histories of `run()` calls on one instance for all six flavours: rounds performed and `converged` flag after each step, exact
+  messages and value at the end).""",
 "C04": """* **As built** (`props/c04.py`, written by a sub-agent and reviewed; 163 quick / 1093 thorough, ≈ 35 s / 3–11 min):
   34 families. Stub-free rewrites on complex symbols with a symbolic stored exponent (`exponent_and_norms`,
   `fuse_and_squeeze`, `gauge_insert_remove` incl. exception safety of the context manager, `insert_gauge` with
